@@ -217,6 +217,20 @@ func c08Probe(c *core.Ctx) {
 		okIv = key == setIntervalKey && ce != nil && len(ce.Args) == 2 && isLocal(info, ce.Args[0], "check")
 	}
 	c.Check(R, sockUpgrade+"$onPacket/probe→(re)arm-check-interval", op.Pos(), okIv, "ClearInterval(previous) ≺ Store(SetInterval(check, …))")
+	// the interval stays armed until cleanup: nobody else clears it
+	for _, x := range op.Root().AllUnits() {
+		for _, cl := range x.CallsTo(clearIVKey, clearTOKey, timerStopKey) {
+			arg := cl.Arg(0)
+			if cl.Key == timerStopKey {
+				arg = cl.Recv
+			}
+			if arg == nil || timerHolder(x.Info(), arg) != "checkIntervalTimer" {
+				continue
+			}
+			okSite := x.Key == sockUpgrade+"$cleanup" || (x == op && store != nil && g.Dominates(cl.Loc, store.Loc))
+			c.Check(R, keyf("%s/clears-check-interval", x.Key), cl.Pos(), okSite, "the noop interval is cleared only by cleanup or right before it is re-armed: otherwise a poll left pending later in the upgrade is never released")
+		}
+	}
 	ck := c.Fn(R, sockUpgrade+"$check")
 	if ck != nil {
 		cg := ck.Graph()
